@@ -11,6 +11,7 @@ from ..specs import header as H
 from .. import relang as RL
 
 BODIES = [
+    "/* a block comment right after the header */\n\nint\tmain(void)\n{\n\treturn (0);\n}\n",
     "\nint\tmain(void)\n{\n\treturn (0);\n}\n",
     "\n#include <unistd.h>\n\nint\tft_a(int a)\n{\n\treturn (a);\n}\n",
     "\nint\tg_x = 1;\n",
@@ -61,10 +62,20 @@ def run(tier, seed, replay):
                   what="the header regular expression / its use could not be located in CheckHeader.check_header")
         return chk.finish()
     chk.frame("regex.extracted", True, {"pattern": pattern, "flags": flags, "method": method})
-    P = RL.search_language(pattern, flags)
     compiled = re.compile(pattern, flags)
+    try:
+        P = RL.search_language(pattern, flags)
+    except RL.UnsupportedRegex as e:
+        # the pattern left the translatable subset: the language lemmas are undecided, the
+        # bounded stand-in (real re through the real pipeline) decides
+        from .common import Item
+        chk.items.append(Item("C13.language.lemmas", "lemma", "undecided", "z3", 0.0, {"unsupported-regex": str(e)}))
+        chk.undecided.append(f"C13.language.lemmas: regex outside the translatable subset ({e})")
+        P = None
     h = z3.String("h")
     T_ = H.lang(H.template_lines())
+    if P is None:
+        return finish_bounded(chk, rnd, thorough)
     r, dt, m = solve_re(h, [z3.InRe(h, T_), z3.Not(z3.InRe(h, P))], chk.timeout_ms)
     rp = None
     if m is not None:
@@ -114,6 +125,10 @@ def run(tier, seed, replay):
                {"note": "z3 membership of concrete headers equals re.search of the real compiled pattern; every "
                         "sample lies in the z3 language of its family"}, time_s=time.time() - t0)
 
+    return finish_bounded(chk, rnd, thorough)
+
+
+def finish_bounded(chk, rnd, thorough):
     # ---------------------------------------------------------------- bounded composition
     cases, fails, dt = bounded(chk, rnd, thorough)
     chk.add_bounded("Lexer + Registry.run (whole pipeline)",
